@@ -1,6 +1,6 @@
 CONSTANTS
   ForcedBoundMs = 1500
 SPECIFICATION TSpec
-INVARIANTS T_C06_GracefulWaits T_C06_GracefulLetsFinish T_C06_ForcedDoesNotWait T_C06_AlwaysCompletes T_C06_NoDispatchAfterCompletion T_C06_NotListeningAfterCompletion
+INVARIANTS T_C06_GracefulWaits T_C06_GracefulLetsFinish T_C06_ForcedDoesNotWait T_C06_AlwaysCompletes T_C06_NoDispatchAfterCompletion T_C06_NotListeningAfterCompletion T_C06_HandlesAfterReplacement
 POSTCONDITION TraceAccepted
 CHECK_DEADLOCK FALSE
